@@ -24,7 +24,7 @@ func init() {
 			"C12.7 a response whose transaction is not in the table is ignored: handleSTUNMessage returns nil on the not-found edge (the Listen loop ends on any error); " +
 			"C12.8 the message handed to the waiter is allocated for (or exclusively taken from a pool by) that packet, never remembered elsewhere, and not put back into a pool on any path after a hand-over that WriteResult reported as accepted (else the caller reads another transaction's response); " +
 			"C12.9 no receive on the C channel of a timer made by time.AfterFunc (it is nil: the receive blocks for ever, with the transaction's locks held); " +
-			"C12.10 the retransmission timer is armed only after the first transmission was written successfully: a callback that can fire while PerformTransaction may still leave through its write-error path completes a transaction nobody is waiting on (WriteResult blocks on the unbuffered result channel with the table lock held — PerformTransaction, Close and every other transaction hang). C12.11 a response is kept from WriteResult only when its id is not in trMap; C12.12 WriteResult hands the result over (unconditional send, or non-blocking into a buffered channel).",
+			"C12.10 the retransmission timer is armed only after the first transmission was written successfully: a callback that can fire while PerformTransaction may still leave through its write-error path completes a transaction nobody is waiting on (WriteResult blocks on the unbuffered result channel with the table lock held — PerformTransaction, Close and every other transaction hang). C12.11 a response is kept from WriteResult only when its id is not in trMap; C12.12 WriteResult hands the result over (unconditional send, or non-blocking into a buffered channel). C12.13 no WaitGroup.Wait with Client.mutexTrMap held.",
 		NotCovered: "timing, loss/duplication schedules and 'never hangs' beyond these pairing rules; the scheduler.",
 		Run:        runC12,
 	})
@@ -754,6 +754,7 @@ func runC12(c *Ctx) {
 	ruleArmAfterFirstWrite(c, "C12.10")
 	ruleResponseCompletes(c, "C12.11")
 	ruleResultHandOff(c, "C12.12")
+	ruleNoWaitUnderTrMapLock(c, "C12.13")
 }
 
 func ruleLateResponsesIgnored(c *Ctx, rule string) {
